@@ -583,10 +583,26 @@ func genLayout(t *rapid.T) layoutCase {
 		c.Code, c.CodeTag, c.SOM = 0x20, codeTag(t, 0x20), rapid.SampledFrom([]string{"0x19", "25", "0X19"}).Draw(t, "som19")
 	}
 	n := rapid.IntRange(1, 12).Draw(t, "fields")
+	wide := rapid.IntRange(0, 7).Draw(t, "wide") == 0
+	if wide {
+		// a wide layout: as many fields as the 62 payload bytes hold (the struct then has more fields than a machine word has bits)
+		n = rapid.IntRange(30, 62).Draw(t, "fields.wide")
+	}
 	used := make([]bool, 64)
 	embed := rapid.IntRange(0, 2).Draw(t, "embed") == 0
 	for i := 0; i < n; i++ {
 		k := kinds[rapid.IntRange(0, len(kinds)-1).Draw(t, "kind")]
+		if wide && i > 3 {
+			// (mostly one-byte kinds, so that the fields fit)
+			for _, cand := range kinds {
+				if cand.width == 1 && rapid.IntRange(0, 2).Draw(t, "narrow") != 0 {
+					k = cand
+					if rapid.Bool().Draw(t, "narrow.pick") {
+						break
+					}
+				}
+			}
+		}
 		// place at a random free offset (construction, a few attempts, then first fit)
 		off := -1
 		for try := 0; try < 6 && off < 0; try++ {
@@ -602,6 +618,19 @@ func genLayout(t *rapid.T) layoutCase {
 			}
 			if free {
 				off = o
+			}
+		}
+		if off < 0 && wide {
+			for o := 2; o+k.width <= 64 && off < 0; o++ { // first fit
+				free := true
+				for j := o; j < o+k.width; j++ {
+					if used[j] {
+						free = false
+					}
+				}
+				if free {
+					off = o
+				}
 			}
 		}
 		if off < 0 {
